@@ -391,10 +391,9 @@ namespace hgraph
         const auto &ops    = dict_ops();
         const auto  result = ops.remove_key_impl(ops.context, mutation_.mutable_data(), key, current_mutation_time());
         apply_slot_mutation_result(mutation_, result);
-        if (!result.changed && ops.touch_impl(ops.context, mutation_.mutable_data(), current_mutation_time()))
-        {
-            mutation_.mark_modified();
-        }
+        // An erase that removes nothing still ticks the dictionary; go through
+        // touch() so a never stamped key set becomes valid with it.
+        if (!result.changed) { touch(); }
         return result.changed;
     }
 
@@ -402,10 +401,10 @@ namespace hgraph
     {
         std::vector<Value> current_keys;
         for (const auto key : keys()) { current_keys.emplace_back(key); }
-        const auto &ops           = dict_ops();
-        const bool  newly_touched = ops.touch_impl(ops.context, mutation_.mutable_data(), current_mutation_time());
+        // touch() (not touch_impl directly): as the first write of a never
+        // written dictionary it also validates the key set, like copy_value_from.
+        touch();
         for (const auto &key : current_keys) { static_cast<void>(erase(key.view())); }
-        if (newly_touched) { mutation_.mark_modified(); }
     }
 
     bool TSDDataMutationView::copy_value_from(const ValueView &source)
